@@ -134,14 +134,16 @@ def _alloc(draw, c, start_year):
     differ between the years (mode 'series': in the instructions, mode 'book': in the program book's spending data, no overwrite)"""
     mode = draw(st.sampled_from(["progset", "progset", "none", "dict", "unfunded", "unfunded", "unfunded", "series", "series", "series", "book"]))
     vals = {}
-    if mode in ("dict", "unfunded"):
-        zero = mode == "unfunded"  # some programs unfunded at the start (quantities that are exactly 0 under the caller's instructions)
-        for i, (p, v) in enumerate(c["progs"]):
-            if zero or not _one_in(draw, 4):
-                vals[p] = [[start_year], [v * draw(st.sampled_from([0.0, 0.0, 1.0, 1.0, 2.0] if zero else [0.5, 1.0, 1.0, 2.0]))]]
-        if zero and all(tv[1][0] == 0.0 for tv in vals.values()):
-            p, v = c["progs"][-1]
-            vals[p] = [[start_year], [v]]  # somebody is funded
+    if mode == "dict":
+        for p, v in c["progs"]:
+            if not _one_in(draw, 4):
+                vals[p] = [[start_year], [v * draw(st.sampled_from([0.5, 1.0, 1.0, 2.0]))]]
+    elif mode == "unfunded":
+        # a non-empty proper subset of the programs gets nothing at the start: their spending, and every flow only they drive, is exactly 0 under the caller's instructions
+        names = [p for p, _ in c["progs"]]
+        zeros = draw(st.lists(st.sampled_from(names), min_size=1, max_size=len(names) - 1, unique=True))
+        for p, v in c["progs"]:
+            vals[p] = [[start_year], [0.0 if p in zeros else v * draw(st.sampled_from([1.0, 1.0, 2.0]))]]
     elif mode in ("series", "book"):
         k = draw(st.sampled_from([1, 2, 2, 3]))
         for p, v in draw(st.lists(st.sampled_from(c["progs"]), min_size=k, max_size=k, unique=True)):
@@ -170,7 +172,7 @@ def _adjustments(draw, c, alloc, start_year, finite=False):
     if varying and not _one_in(draw, 5):
         chosen = (varying + [p for p in chosen if p not in varying])[:k]  # programs whose starting spend changes over time come first
     unfunded = [p for p in progs if alloc["mode"] in ("dict", "unfunded") and p in alloc["vals"] and alloc["vals"][p][1][0] == 0.0]
-    if unfunded and not _one_in(draw, 4):
+    if unfunded:
         k = max(k, 2)
         funded = [p for p in chosen if p not in unfunded] or [p for p in progs if p not in unfunded][:1]
         chosen = (unfunded[:1] + funded + unfunded[1:])[:k]  # an unfunded program that can be funded, next to a funded one
